@@ -133,6 +133,40 @@ func c11Config(p *Prog, c *Check) {
 			"LastConfig(_).KeyperConfigIndex < $cfg.KeyperConfigIndex")
 		c.Result(miss == "", rule+".check", "checkConfig:nil", p.Rel(cc.Pos()), shortFn(cc), "returns nil", "summary of the nil returns lacks `"+miss+"`", used...)
 	}
+	ensureValidRule(p, c, rule+".valid")
+}
+
+// ensureValidRule: a valid configuration has 1 <= threshold <= number of keypers.
+func ensureValidRule(p *Prog, c *Check, vrule string) {
+	// a valid configuration has 1 <= threshold <= number of keypers, for the threshold as transmitted
+	// (a comparison after narrowing it to int lets 2^63.. pass as negative: every later quorum is then
+	// "reached" by a single vote)
+	if ev, err := p.Func("keyper/shutterevents.BatchConfig.EnsureValid"); c.Must(err) {
+		efi := p.Info(ev)
+		c.Analysed(shortFn(ev))
+		sum := p.Summary(ev, []ResultCond{{0, "nil"}})
+		b := Binds{"bc": efi.T(ev.Params[0])}
+		missing := ""
+		var used []string
+		for _, alt := range [][]string{
+			{"$bc.Threshold <= len($bc.Keypers)"},
+			{"$bc.Threshold != 0", "0 < $bc.Threshold", "1 <= $bc.Threshold"},
+			{"len($bc.Keypers) != 0", "0 < len($bc.Keypers)", "1 <= len($bc.Keypers)"},
+		} {
+			found := false
+			for _, ps := range alt {
+				if a, ok := findAtomStrict(sum, ps, copyBinds(b)); ok {
+					found = true
+					used = append(used, a.s)
+					break
+				}
+			}
+			if !found && missing == "" {
+				missing = alt[0]
+			}
+		}
+		c.Result(missing == "", vrule, "EnsureValid:nil", p.Rel(ev.Pos()), shortFn(ev), "returns nil", "a configuration is accepted as valid without `"+missing+"` holding for the transmitted values (comparisons after a value-changing integer conversion do not count)", used...)
+	}
 }
 
 func mustFn(p *Prog, c *Check, spec string) *ssa.Function {
@@ -783,6 +817,7 @@ func checkC12(p *Prog, c *Check) {
 	c12Powermap(p, c)
 	uniqueAddrsRule(p, c, "C12-R6")
 	c12Quorum(p, c)
+	ensureValidRule(p, c, "C12-R8.valid")
 	// identities (and so voting power) change only through accepted transactions
 	c10NoWriteBeforeRefusal(p, c)
 }
